@@ -26,6 +26,23 @@ pub fn data_dump(dbs: &Arc<Databases>) -> Vec<String> {
 }
 /// removed keys may be tombstones on one node and absent on another: compare live keys only, plus "not live" for the rest
 pub fn live_dump(dbs: &Arc<Databases>) -> Vec<String> { data_dump(dbs).into_iter().filter(|l| !l.ends_with(" removed")).collect() }
+/// live keys with their values, versions left out
+pub fn value_dump(dbs: &Arc<Databases>) -> Vec<String> {
+    let mut out: Vec<String> = Vec::new();
+    let m = dbs.map.read().unwrap();
+    let mut names: Vec<String> = m.keys().map(|k| k.clone()).collect(); names.sort();
+    for name in names.iter() {
+        let db = m.get(name).unwrap();
+        let dm = db.map.read().unwrap();
+        let mut keys: Vec<String> = dm.keys().map(|k| k.clone()).collect(); keys.sort();
+        for k in keys.iter() {
+            if k == "$connections" { continue; }
+            let v = dm.get(k).unwrap();
+            if v.state != ValueStatus::Deleted { out.push([name.as_str(), "/", k, " = ", &v.value].concat()); }
+        }
+    }
+    out
+}
 
 pub fn c04_one_op() {
     let secondaries = vsym::param("secondaries", 1);
@@ -72,6 +89,8 @@ pub fn c04_one_op() {
     let mut i = 1;
     while i < cl.nodes.len() {
         vsym::check("converge.same-as-primary", same_lines(&live_dump(&cl.nodes[0].dbs), &live_dump(&cl.nodes[i].dbs)));
+        // weaker statement that must hold even where the recorded double-apply defect changes versions: same live keys, same values
+        vsym::check("converge.same-values-as-primary", same_lines(&value_dump(&cl.nodes[0].dbs), &value_dump(&cl.nodes[i].dbs)));
         i += 1;
     }
     // accounting end-to-end (C15): nothing stays pending with stable membership
